@@ -1,6 +1,7 @@
 package main
 
 import (
+	"os"
 	"fmt"
 	"go/token"
 	"go/types"
@@ -822,6 +823,9 @@ func (c *FnCtx) execReturn(x *ssa.Return, st *State, reach Term) {
 	}
 	env := c.envFor(st, c.entry)
 	c.bindResults(env, sig, c.spec, results)
+	if k := os.Getenv("GOVC_DEBUG_GHOST"); k != "" {
+		fmt.Fprintf(os.Stderr, "return %d in block %d: %s = %v\n", c.retN, x.Block().Index, k, st.heaps[k])
+	}
 	for i, cl := range c.spec.Ensures {
 		tv, err := c.evalSpec(cl.E, env)
 		if err != nil {
